@@ -22,7 +22,7 @@ pub fn property() -> Property {
         parts: vec![
             Part {
                 name: "game_stream",
-                quick: 12_000,
+                quick: 30_000,
                 thorough: 600_000,
                 single_shard: false, supplementary: false,
                 run: |cfg| run_part(cfg, (0..4u8, raw_doc()), |(k, r)| build_game_doc(*k, r), check_doc),
@@ -30,7 +30,7 @@ pub fn property() -> Property {
             },
             Part {
                 name: "event_stream",
-                quick: 8_000,
+                quick: 20_000,
                 thorough: 400_000,
                 single_shard: false, supplementary: false,
                 run: |cfg| run_part(cfg, (0..5u8, raw_doc()), |(k, r)| build_event_doc(*k, r), check_doc),
